@@ -5,7 +5,7 @@
                 every message of the peer must do exactly what the model does (results, which items the reader took, how many
                 receivers were active when a call was written, queue length / receiver count / closed flag after every step);
    spec field : Spec.spec_check on the history alone;
-   class      : flags_call_no_timeout when a timeout is configured and some call goes through Proxy::call_with_flags. *)
+   class      : return_rule_hijack when the application subscribes to type='method_return' / type='error' (steps Y / W). *)
 From ZV Require Import Base.Bytes Base.Res C19.Broadcast C19.Model C19.Spec.
 
 Fixpoint split_fast_aux (sep : byte) (l cur : bytes) : list bytes :=
@@ -91,6 +91,10 @@ Definition parse_ptok (s : bytes) : option ptok :=
   | [] => None
   end.
 
+Definition parse_ures (s : bytes) : option ures :=
+  if lbeq s (B "ok") then Some UOk else if lbeq s (B "P") then Some UPending else if lbeq s (B "-") then Some USkip
+  else match s with c :: _ => if beq c "E"%byte then Some UErr else None | [] => None end.
+
 Definition parse_snap (s : bytes) : option (nat * nat * bool) :=
   let (s', c) := match rev s with
                  | x :: r => if beq x "c"%byte then (rev r, true) else (s, false)
@@ -142,6 +146,14 @@ Definition parse_line (t : bytes) : option (bytes * oline) :=
                          | _ => None
                          end
                   else if beq k "Z"%byte then mk OSleep
+                  else if beq k "Y"%byte then match parse_ures res with Some u => mk (OUser false u) | None => None end
+                  else if beq k "W"%byte then match parse_ures res with Some u => mk (OUser true u) | None => None end
+                  else if beq k "y"%byte then
+                    match split_fast "/"%byte res with
+                    | [a; b] => match parse_ures a, parse_ures b with Some x, Some y => mk (OUserPoll x y) | _, _ => None end
+                    | _ => None
+                    end
+                  else if beq k "D"%byte then mk OUserDrop
                   else match parse_ptok stp with
                        | Some p =>
                            if lbeq res (B "-") then mk (OPeer p None)
@@ -327,6 +339,20 @@ Definition peer_item (p : ptok) (k : nat) : option (item * option nat) :=
 
 Definition is_fail_tok (p : ptok) : bool := match p with PkEof | PkIoErr => true | _ => false end.
 
+(* the application's add_match for the rule of an internal entry, polled once: done (the entry is replaced), waiting (only while
+   the reader holds msg_senders), refused (only after the reader has failed) *)
+Definition user_model (e : bool) (r : ures) (st : mst) : verdict mst :=
+  let s := ms_sys st in
+  match r with
+  | USkip => Good st
+  | UOk => match step (LHijack e) s with
+           | Some s' => Good {| ms_sys := s'; ms_wd := ms_wd st; ms_next := ms_next st |}
+           | None => Bad (B "add_match-completed-although-the-model-has-msg_senders-locked-or-the-reader-stopped")
+           end
+  | UPending => match reader s with RPush _ _ => Good st | _ => Bad (B "add_match-waits-although-msg_senders-is-free") end
+  | UErr => match reader s with RStopped => Good st | _ => Bad (B "add_match-failed-although-the-reader-is-alive") end
+  end.
+
 Definition step_model (o : oline) (st : mst) : verdict mst :=
   let s := ms_sys st in
   match o_ev o with
@@ -379,7 +405,9 @@ Definition step_model (o : oline) (st : mst) : verdict mst :=
                    end
           end
       end
-  | OSleep => Good st
+  | OSleep | OUserDrop => Good st
+  | OUser e r => user_model e r st
+  | OUserPoll a b => match user_model false a st with Good st1 => user_model true b st1 | Bad w => Bad w end
   end.
 
 Definition snap_ok (o : oline) (s : sys) : bool :=
@@ -428,8 +456,8 @@ Definition run_case (line : bytes) : outp :=
                         else if Nat.eqb capacity 0 then B "capacity-0"
                         else replay 0 h {| ms_sys := s0; ms_wd := map snd cs; ms_next := 0 |} in
                       let spec := spec_check tmo (map (fun p => (fst p, match snd p with None => true | Some _ => false end)) cs) h in
-                      let cls := if tmo && existsb (fun p => match fst p with OKFlags => true | _ => false end) cs
-                                 then B "flags_call_no_timeout" else dash in
+                      let cls := if existsb (fun t => match t with c :: _ => beq c "Y"%byte || beq c "W"%byte | [] => false end) steps
+                                 then B "return_rule_hijack" else dash in
                       {| o_model := model; o_spec := spec; o_class := cls |}
                   | None => bad_case
                   end
